@@ -60,4 +60,4 @@ _families_layered = families
 
 
 def families(tier, seed):
-    return _families_layered(tier, seed) + [("compose", seed, 1500 if tier == "quick" else 25000, ["c07"])]
+    return _families_layered(tier, seed) + [("compose", seed, 1500 if tier == "quick" else 10000, ["c07"])]
